@@ -3364,6 +3364,33 @@ class Canon:
                     if isinstance(n, ast.Attribute) and isinstance(n.ctx, (ast.Store, ast.Del)):
                         stored.add(n.attr)
             self._method_names = names - stored
+        def root_ok(root, s_):
+            if stores.get(root, 0) == 0:
+                return True
+            top_bind = [i_ for i_, t_ in enumerate(stmts) if isinstance(t_, (ast.Assign, ast.AnnAssign)) and any(
+                isinstance(k_, ast.Name) and k_.id == root for k_ in (t_.targets if isinstance(t_, ast.Assign) else [t_.target]))]
+            top_alias = [i_ for i_, t_ in enumerate(stmts) if t_ is s_]
+            return stores.get(root, 0) == 1 and root not in params and len(top_bind) == 1 and len(top_alias) == 1 and top_bind[0] < top_alias[0]
+        built = False
+        for s_ in stmts:
+            # x = partial(r.m, k=CONST) / attrgetter("a") / methodcaller("m", ..): a callable built from things that do not change
+            if isinstance(s_, ast.Assign) and len(s_.targets) == 1 and isinstance(s_.targets[0], ast.Name) and isinstance(s_.value, ast.Call) \
+                    and u(s_.value.func).split(".")[-1] in ("partial", "attrgetter", "itemgetter", "methodcaller") \
+                    and not any(isinstance(a_, ast.Starred) for a_ in s_.value.args) and all(k_.arg is not None for k_ in s_.value.keywords):
+                x = s_.targets[0].id
+                parts = list(s_.value.args) + [k_.value for k_ in s_.value.keywords]
+                fine = stores.get(x, 0) == 1 and x not in params
+                for a_ in parts:
+                    ch_ = norm._attr_chain(a_)
+                    if isinstance(a_, ast.Constant):
+                        continue
+                    if ch_ is None or not root_ok(ch_[0], s_):
+                        fine = False
+                    elif len(ch_) > 1 and not (ch_[0] in module.imports or ch_[0] in module.classes or ch_[-1] in self._method_names or ch_[-1].isupper() or ch_[-2][:1].isupper()):
+                        fine = False        # (an attribute that may be reassigned between building the callable and calling it)
+                if fine:
+                    cand[x] = s_
+                    built = True
         for s_ in ast.walk(ast.Module(body=list(stmts), type_ignores=[])):
             if isinstance(s_, ast.Assign) and len(s_.targets) == 1 and isinstance(s_.targets[0], ast.Name) and isinstance(s_.value, ast.Attribute):
                 x = s_.targets[0].id
@@ -3371,10 +3398,13 @@ class Canon:
                 if ch is None or stores.get(x, 0) != 1 or x in params:
                     continue
                 root = ch[0] if isinstance(ch, (list, tuple)) else u(s_.value).split(".")[0]
-                if stores.get(root, 0) > 0 and root not in params and root != "self":
-                    continue
                 if stores.get(root, 0) > 0:
-                    continue
+                    # a local bound once, at the top level of the function, before the alias is taken there too
+                    top_bind = [i_ for i_, t_ in enumerate(stmts) if isinstance(t_, (ast.Assign, ast.AnnAssign)) and any(
+                        isinstance(k_, ast.Name) and k_.id == root for k_ in (t_.targets if isinstance(t_, ast.Assign) else [t_.target]))]
+                    top_alias = [i_ for i_, t_ in enumerate(stmts) if t_ is s_]
+                    if not (stores.get(root, 0) == 1 and root not in params and len(top_bind) == 1 and len(top_alias) == 1 and top_bind[0] < top_alias[0]):
+                        continue
                 is_mod = root in module.imports and root not in params
                 is_meth = s_.value.attr in self._method_names and not s_.value.attr.startswith("__")
                 if is_mod or is_meth:
@@ -3419,6 +3449,8 @@ class Canon:
             r_ = R().visit(s_)
             if r_ is not None:
                 out.append(ast.fix_missing_locations(r_))
+        if built:
+            out = [ast.fix_missing_locations(_ExprNorm().visit(s_)) for s_ in out]
         for s_ in out:
             for fld in ("body", "orelse", "finalbody"):
                 for n in ast.walk(s_):
